@@ -224,6 +224,9 @@ static const std::vector<Nest>& nests() {
         {"msgpack", "array_siblings", [](size_t d) { if (!d) return std::string("\x00", 1); std::string s; for (size_t i = 0; i + 1 < d; ++i) s += std::string("\x94\x90\x80\x90", 4); return s + std::string("\x90", 1); }},
         {"msgpack", "map_siblings", [](size_t d) { if (!d) return std::string("\x00", 1); std::string s; for (size_t i = 0; i + 1 < d; ++i) s += std::string("\x83\xa1\x61\x80\xa1\x62\x90\xa1\x63", 9); return s + std::string("\x80", 1); }},
         {"ubjson", "array_siblings", [](size_t d) { if (!d) return std::string("Z"); std::string s, e; for (size_t i = 0; i + 1 < d; ++i) { s += "[[]{}[]"; e += "]"; } return s + "[]" + e; }},
+        // a typed array (RFC 8746) and the arrays a multi-dimensional array expands to are containers like any other
+        {"cbor", "typed_array_leaf", [](size_t d) { if (!d) return std::string("\x00", 1); return rep("\x81", d - 1) + std::string("\xd8\x40\x41\x01", 4); }},
+        {"cbor", "multi_dim", [](size_t d) { if (!d) return std::string("\x00", 1); if (d > 23) d = 23; std::string ext(1, (char)(0x80 + d)); ext += rep("\x01", d); return std::string("\xd8\x28\x82", 3) + ext + std::string("\x81\x07", 2); }},
         {"cbor", "array", [](size_t d) { return rep("\x81", d ? d - 1 : 0) + (d ? std::string("\x80", 1) : std::string("\x00", 1)); }},
         {"cbor", "indef_array", [](size_t d) { return rep("\x9f", d) + (d ? "" : std::string("\x00", 1)) + rep("\xff", d); }},
         {"cbor", "map", [](size_t d) { return rep("\xa1\x61\x61", d ? d - 1 : 0) + (d ? std::string("\xa0", 1) : std::string("\x00", 1)); }},
@@ -584,12 +587,18 @@ static Result exec_c10(MVal& plan, Stats& st) {
         cases.push_back(c);
     } else if (kind == "limits") {
         // every (format, container kind) x limit: depth limit-1 and limit decode, limit+1 is refused
-        static const int limits[] = {0, 1, 2, 3, 7, 64, 1024, 5000};
+        // "every nesting limit from 0 to tens of thousands": the large ones straddle the 16- and 17-bit boundaries
+        static const int limits[] = {0, 1, 2, 3, 7, 64, 1024, 5000, 32766, 32767, 32768, 65535, 65536, 70000};
         auto& ns = nests();
         const Nest& n = ns[plan.getu("case") % ns.size()];
         fmt = n.fmt;
+        // the large limits only with generators that build their input in linear time (plain repetition)
+        std::string nk = n.kind;
+        bool linear = nk == "array" || nk == "indef_array" || nk == "map" || (nk == "object" && fmt != "bson");
+        if (fmt == "bson") linear = false;
         for (int lim : limits) for (int delta = -1; delta <= 1; ++delta) {
             long depth = (long)lim + delta; if (depth < 0) continue;
+            if (lim > 5000 && !linear) continue;
             if (fmt == "bson" && depth == 0) continue;
             C10Case c; c.opts = MVal::obj(); c.opts.set("max_depth", MVal::integer(lim));
             c.B = n.make((size_t)depth); c.expect = delta > 0 ? 1 : 0;
@@ -658,6 +667,7 @@ static Result exec_c10(MVal& plan, Stats& st) {
         { Ctx pc = R.cx; pc.cap = 200000; Outcome probe = R.api.run("reader", Delivery(), pc); R.produced_hint = probe.produced;
           if (probe.produced > 200000) { st.inc("cases_skipped_amplifying_input"); continue; } }
         for (auto& m : modes) for (auto& d : dels) {
+            if (c.B.size() > 20000 && (m == "decoder" || m == "iter" || (d.kind != "contig" && d.chunk < 16))) continue;   // huge depths: reader and cursor, coarse deliveries
             if (!R.want()) continue;
             Outcome out = R.exec(m, d);
             R.c05_flags(out, m, d);
@@ -672,13 +682,14 @@ static Result exec_c10(MVal& plan, Stats& st) {
             if (!R.res.ok) {
                 plan.set("check", MVal::str("c10")); plan.set("kind", MVal::str(kind)); plan.set("options", c.opts);
                 plan.set("expect", MVal::integer(c.expect)); plan.set("tag", MVal::str(c.tag)); plan.set("exp", MVal::uinteger(c.exp));
+                if (c.expect >= 0) plan.set("noshrink", MVal::boolean(true));   // the expectation belongs to this exact input: shrinking the bytes would change its depth
                 return R.res;
             }
         }
     }
     // encoders enforce the same limit on what they are asked to write
     if (R.res.ok && (kind == "limits" || kind == "enc_limit") && R.api.encoder_nest) {
-        static const int limits[] = {0, 1, 2, 3, 7, 64, 1024};
+        static const int limits[] = {0, 1, 2, 3, 7, 64, 1024, 32767, 65536};
         struct EC { int ck; size_t depth; int lim; int expect; };
         std::vector<EC> ecs;
         if (kind == "enc_limit") ecs.push_back(EC{(int)plan.geti("ckind"), (size_t)plan.getu("depth"), (int)plan.geti("limit"), (int)plan.geti("expect")});
